@@ -11,7 +11,10 @@ import re
 from .smt import (T, TRUE, FALSE, I, R, app, NOT, AND, OR, IMP, ITE, EQ, ADD, SUB, MUL, NEG, CMP,
                   to_real, num2, lit_int, Registry)
 from .sym import (SV, Num, Bool, NoneV, NONE, Str, Opaque, Tup, Ref, View, Fun, ExcV, Module, Sentinel,
-                  Cell, LstCell, PyListCell, ValCell, PyDictCell, ObjCell, IterCell, State)
+                  Cell, LstCell, PyListCell, ValCell, PyDictCell, ObjCell, IterCell, State, Padded)
+
+
+from .sym import Seg
 
 
 class Unsupported(Exception):
@@ -120,7 +123,7 @@ class Interp(object):
         return Ref(cid)
 
     def emit(self, kind, name, st, goal, info=None):
-        if self.spec_mode:
+        if self.spec_mode or getattr(self, "silent", 0):
             return
         if goal.s == "true":
             # trivially true obligations are still counted (discharged syntactically)
@@ -182,6 +185,9 @@ class Interp(object):
             t = reg.new(name, sort)
             self.assume_wf(st, t)
             return self.new_cell(st, LstCell(t))
+        if head == "KeyMap":
+            from .keymap import km_make          # a dict from strings to lists of args[0] (pyvc/keymap.py)
+            return km_make(self, st, name, args[0])
         if head == "PyList":
             n = int(args[0])
             return self.new_cell(st, PyListCell([self.make(args[1], "%s_%d" % (name, k), st) for k in range(n)]))
@@ -280,14 +286,23 @@ class Interp(object):
         if isinstance(cell, ValCell):
             t = cell.term
             for p in ref.path:
+                if isinstance(p, Seg):
+                    from .dicts import seg_get
+                    t = seg_get(self, t, p)
+                    continue
                 t = T("(vget %s %s)" % (t.s, p.s), "Val")
             return t
+        if type(cell).__name__ == "KeyMapCell" and ref.path:
+            from .keymap import km_deref
+            return km_deref(self, st, ref)
         assert not ref.path
         return cell
 
     def store(self, st, ref, newterm):
         """write a new term at a (possibly nested) list / Val position"""
         cell = st.heap[ref.cid]
+        if ref.cid in st.notes.get("unknown_alias", ()):
+            raise Unsupported("store through a name that a loop re-binds (the object it refers to is not known there)")
         if isinstance(cell, ValCell) and not ref.path and ref.cid in st.notes.get("iterating", ()) \
                 and not getattr(self, "_iter_store_ok", False):
             # only the VALUE of an existing key may be replaced while `for key in d` runs (see dicts.for_dict)
@@ -296,6 +311,9 @@ class Interp(object):
             st.heap[ref.cid] = LstCell(self._store_path(cell.term, ref.path, newterm))
         elif isinstance(cell, ValCell):
             st.heap[ref.cid] = ValCell(self._vstore_path(cell.term, ref.path, newterm))
+        elif type(cell).__name__ == "KeyMapCell":
+            from .keymap import km_store
+            km_store(self, st, ref, newterm)
         else:
             raise Unsupported("store into " + type(cell).__name__)
 
@@ -308,6 +326,9 @@ class Interp(object):
     def _vstore_path(self, root, path, new):
         if not path:
             return new
+        if isinstance(path[0], Seg):
+            from .dicts import seg_get, seg_set
+            return seg_set(self, root, path[0], self._vstore_path(seg_get(self, root, path[0]), path[1:], new))
         inner = T("(vget %s %s)" % (root.s, path[0].s), "Val")
         sub = self._vstore_path(inner, path[1:], new)
         return T("(D (store (dm %s) %s (some %s)))" % (root.s, path[0].s, sub.s), "Val")
@@ -324,6 +345,9 @@ class Interp(object):
                 return self.lst_view(self.deref(st, v))
             if isinstance(cell, PyListCell):
                 return self.items_view(cell.items)
+            if type(cell).__name__ == "StructLstCell":      # ghost `out` of a generator yielding tuples (histlib)
+                from .histlib import struct_view
+                return struct_view(self, cell)
         if isinstance(v, Str):
             return self.items_view([Str(ch) for ch in v.s])
         raise Unsupported("not a sequence: %r" % (v,))
@@ -419,6 +443,17 @@ class Interp(object):
 
     def py_eq(self, st, a, b):
         """python `==` as a Bool term"""
+        if isinstance(a, Padded) or isinstance(b, Padded):
+            # an item of a zip_longest row: a flow value or the fill value None (flow values are never None here)
+            if isinstance(b, Padded) and not isinstance(a, Padded):
+                a, b = b, a
+            if isinstance(b, NoneV):
+                return NOT(a.present)
+            if isinstance(b, Opaque) and b.sort == "V":
+                return AND(a.present, EQ(a.t, b.t))
+            if isinstance(b, Padded):
+                return AND(EQ(a.present, b.present), IMP(a.present, EQ(a.t, b.t)))
+            raise Unsupported("== between %r and %r" % (a, b))
         if isinstance(a, Num) and isinstance(b, Num):
             la, lb = lit_int(a.t), lit_int(b.t)
             if la is not None and lb is not None:
@@ -520,6 +555,11 @@ class Interp(object):
         return "list"
 
     def py_is(self, st, a, b):
+        if isinstance(a, Padded) or isinstance(b, Padded):
+            o, p = (b, a) if isinstance(a, Padded) else (a, b)
+            if isinstance(o, NoneV):
+                return NOT(p.present)          # `x is None` for an item of a zip_longest row
+            raise Unsupported("`is` between %r and %r" % (a, b))
         if a is b:
             return TRUE
         if isinstance(a, Tup) or isinstance(b, Tup):
@@ -529,6 +569,12 @@ class Interp(object):
         if isinstance(a, Sentinel) or isinstance(b, Sentinel):
             return TRUE if (isinstance(a, Sentinel) and isinstance(b, Sentinel) and a.name == b.name) else FALSE
         if isinstance(a, Ref) and isinstance(b, Ref):
+            if a.cid == b.cid and a.path != b.path and any(isinstance(p, Seg) for p in a.path + b.path):
+                from .dicts import same_ref
+                r = same_ref(self, st, a, b)
+                if r is None:
+                    raise Unsupported("`is` between references at symbolic key paths")
+                return r
             return TRUE if (a.cid == b.cid and a.path == b.path) else FALSE
         if isinstance(a, Opaque) and isinstance(b, Opaque) and a.sort == b.sort and a.sort in ("Obj", "V"):
             return EQ(a.t, b.t)      # identity of abstract objects = equality of their denotation ids
@@ -684,6 +730,7 @@ class Interp(object):
                 # try pure merge: evaluate the rest under the assumption, without forking
                 cont_cond = c if is_and else NOT(c)
                 s3 = s2.fork(cont_cond, "")
+                n_pc3 = len(s3.pc)
                 n_before = len(self._exc_out)
                 n_vcs = len(self.vcs)
                 try:
@@ -701,6 +748,9 @@ class Interp(object):
                         val = Bool(AND(c, rt) if is_and else OR(c, rt))
                         val.approx_truth_only = True
                     # keep VCs emitted under the assumption (their hyps include cont_cond)
+                    # facts learnt while the rest was evaluated (postconditions of callees) hold whenever it IS evaluated
+                    for h in sub[0][0].pc[n_pc3:]:
+                        s2.assume(IMP(cont_cond, h))
                     results.append((s2, val))
                 else:
                     for s4, v4 in sub:
@@ -832,6 +882,9 @@ class Interp(object):
             return TRUE if a.s in b.s else FALSE
         if isinstance(b, Ref):
             cell = s.heap[b.cid]
+            if type(cell).__name__ == "KeyMapCell" and not b.path:
+                from .keymap import km_has
+                return km_has(self, s, b, a)
             if isinstance(cell, ValCell):
                 return self.val_has(s, self.deref(s, b), a)
             if isinstance(cell, PyDictCell):
@@ -904,7 +957,7 @@ class Interp(object):
             return [(s, self.world.module_attr(v.name, attr, self))]
         if isinstance(v, Ref):
             cell = s.heap[v.cid]
-            if isinstance(cell, ObjCell) and cell.cls == "$file":
+            if isinstance(cell, ObjCell) and cell.cls == "$file" and attr not in cell.fields:
                 return [(s, Fun("method", recv=v, name=attr))]
             if isinstance(cell, ObjCell):
                 if attr in cell.fields:
@@ -929,6 +982,8 @@ class Interp(object):
             return [(s, Fun("method", recv=v, name=attr))]
         if isinstance(v, Opaque) and v.sort == "Obj":
             return [(s, Fun("elem-method", elem=v, name=attr))]
+        if isinstance(v, Tup) and attr in getattr(v, "ntfields", ()):
+            return [(s, v.items[v.ntfields.index(attr)])]          # field of a namedtuple instance
         if isinstance(v, (View, Tup, Str, Opaque)):
             return [(s, Fun("method", recv=v, name=attr))]
         if isinstance(v, Fun) and v.kind == "super":
@@ -985,8 +1040,13 @@ class Interp(object):
 
     def index(self, s, v, i):
         """v[i] with Python semantics (negative wrap, IndexError / KeyError)"""
+        if isinstance(v, Ref) and type(s.heap[v.cid]).__name__ == "StructLstCell":
+            v = self.as_view(s, v)
         if isinstance(v, Ref):
             cell = s.heap[v.cid]
+            if type(cell).__name__ == "KeyMapCell":
+                from .keymap import km_index
+                return km_index(self, s, v, i)
             if isinstance(cell, PyDictCell):
                 if isinstance(i, Str):
                     if i.s in cell.items:
@@ -1134,6 +1194,10 @@ class Interp(object):
         length = ITE(CMP("<", length, I(0)), I(0), length)
         nv = View(length, lambda i: view.get(ADD(l, i)))
         nv.pykind = self.kind_of_seq(s, v)
+        vt = getattr(view, "term", None)
+        if vt is not None and l.s == "0":
+            # a prefix xs[:h] of a list term: the same items (array) with a shorter length -- an exact list term of the slice
+            nv.term = self.reg.l_mk(vt.sort, self.reg.l_arr(vt), length)
         return nv
 
     # ---- comprehensions
@@ -1143,16 +1207,67 @@ class Interp(object):
         return [(st, v)]
 
     def ev_ListComp(self, e, st):
-        v = self.comprehension(e, st)
+        from .histlib import alloc_comprehension     # [copy.deepcopy(obj) for _ in range(n)]: n new objects
+        r = alloc_comprehension(self, e, st)
+        if r is not None:
+            return [(st, r)]
+        # a list comprehension is evaluated eagerly: its items are computed in the state as it is NOW (a snapshot), not
+        # in whatever the state object holds when the symbolic view is looked at later
+        snap = st.copy()
+        v = self.comprehension(e, snap)
         if v.items is not None:
             return [(st, self.new_cell(st, PyListCell(v.items)))]
+        if not self.spec_mode:
+            # symbolic length: the items are looked at lazily (and then mostly by contract clauses, where no obligation
+            # is emitted).  One generic item is evaluated here so that the safety obligations of the element expression
+            # (index in range, division by zero, callee preconditions) are emitted / its exceptions are explored.
+            q = self.reg.new("ci", "Int")
+            n = getattr(v, "guard_len", None) or v.len
+            snap.pc.append(AND(CMP("<=", I(0), q), CMP("<", q, n)))
+            sample = None
+            try:
+                sample = v.get(q)
+            finally:
+                snap.pc.pop()
+        else:
+            sample = None
+        raw_get = v.get
+
+        def quiet_get(i):
+            # later looks at an item (with a bound index variable when the list is materialised or quantified over): same
+            # value, but the obligations / exceptional outcomes of the element expression are not produced a second time
+            self.silent = getattr(self, "silent", 0) + 1
+            n_exc = len(self._exc_out)
+            try:
+                return raw_get(i)
+            finally:
+                self.silent -= 1
+                del self._exc_out[n_exc:]
+        v.get = quiet_get
+        if isinstance(sample, (Num, Bool)) or (isinstance(sample, Opaque) and sample.sort in ("V", "Obj", "Key", "Val")):
+            # items of a simple sort: the comprehension's value is a NEW list object (a heap cell with identity that can
+            # be stored, passed on and mutated), equal to the view item by item
+            from .builtins_ import sv_lst_sort
+            from .calls import materialise
+            return [(st, self.new_cell(st, LstCell(materialise(self, st, v, sv_lst_sort(self, sample)))))]
         return [(st, v)]
 
     def comprehension(self, e, st):
         if len(e.generators) != 1 or e.generators[0].is_async:
             raise Unsupported("comprehension with several generators")
         g = e.generators[0]
-        src = self.as_view(st, self.ev1(g.iter, st))
+        itv = self.ev1(g.iter, st)
+        if isinstance(itv, Ref) and isinstance(st.heap[itv.cid], IterCell):
+            # iterating over the result of a generator function (modelled functionally: producing its values has no
+            # effect); an INPUT flow (ghost `pulled`) or a live list iterator is not consumed here
+            cell = st.heap[itv.cid]
+            if cell.name is not None or getattr(cell, "live", None) is not None or getattr(cell, "kind", None) is not None \
+                    or getattr(cell, "upstream", None) is not None or getattr(cell, "shared", None) is not None:
+                raise Unsupported("comprehension over an input iterator")
+            from .builtins_ import consume_view
+            src = consume_view(self, st, itv)
+        else:
+            src = self.as_view(st, itv)
 
         def body(i):
             s2 = st.copy()
@@ -1175,8 +1290,15 @@ class Interp(object):
 
         def get(i):
             s2, _ = body(i)
-            return self.ev1(e.elt, s2)
+            from .histlib import freeze_new      # a list the item expression creates: immutable snapshot of its items
+            return freeze_new(self, st, s2, self.ev1(e.elt, s2))
+
+        def get2(i):
+            # the element together with the (throw-away) state it was evaluated in: cells it creates live only there
+            s2, _ = body(i)
+            return self.ev1(e.elt, s2), s2
         nv = View(src.len, get)
+        nv.get2 = get2
         if getattr(src, "guard_len", None) is not None:
             nv.guard_len = src.guard_len
         return nv
